@@ -94,6 +94,13 @@ def inline_all(tree):
 
 
 def respell(kind: str, src: str) -> str:
+    import warnings
+    with warnings.catch_warnings():
+        warnings.simplefilter("ignore")
+        return _respell(kind, src)
+
+
+def _respell(kind: str, src: str) -> str:
     if kind == "inlineall":
         t = inline_all(ast.parse(src))
         ast.fix_missing_locations(t)
